@@ -239,7 +239,7 @@ def check(case):
             dy = np.asarray(P(te, ye), dtype=np.float64) if ev.kind == "deriv" else None
             gres = abs(ev.s * (ev.h(te, ye, dy) - ev.c))
             if ev.kind == "deriv" and case["dense"]:
-                gres = abs(float(ev(te, ye, a.sol.grad(np.float64(te)))))
+                gres = abs(float(np.asarray(ev(te, ye, a.sol.grad(np.float64(te)))).reshape(())))
             allowed2 = 1e-7 * abs(ev.s) * G * max(1.0, abs(te))
             if rich:
                 allowed2 += abs(ev.s) * max(ev.grad_norm(), rate) * 1000 * (case["atol"] + case["rtol"] * scale)   # sub-step pieces, see C06
